@@ -261,6 +261,36 @@ def run(ctx):
         if blob is not None:
             r.restore("back%d" % k, cls, name, blob)
     traces.append(r.json())
+    # short-lived parameter sets: created, used by one exchange with the SAME password, and dropped, so that object
+    # identities are recycled (tables keyed by id() of a dead object)
+    import gc
+    sp_ = load_repo()
+    G263 = uni.group("i263")
+    r = Run("short-lived-parameter-sets", uni)
+    for k in range(300 if thorough else 140):
+        name = "Pshort%d" % k
+        seeds = dict(M=b"sM%d" % k, N=b"sN%d" % k, S=b"sS%d" % k)
+        try:
+            P = sp_.params._Params(G263, **seeds)
+        except AssertionError:
+            continue                      # finding F7
+        uni.params[name] = P
+        uni.pdesc[name] = {"grp": "i263", "M": hx(seeds["M"]), "N": hx(seeds["N"]), "S": hx(seeds["S"])}
+        ca, cb = ("A", "B") if k % 2 else ("S", "S")
+        r.new("a%d" % k, ca, name, b"same-pw", b"a", b"b" if ca != "S" else b"")
+        r.new("b%d" % k, cb, name, b"same-pw", b"a", b"b" if ca != "S" else b"")
+        ma = r.start("a%d" % k, mp.stream_for("i263", 3 + k % 90))
+        mb = r.start("b%d" % k, mp.stream_for("i263", 4 + k % 80))
+        if ma is not None and mb is not None:
+            r.finish("a%d" % k, mb)
+            r.finish("b%d" % k, ma)
+        del uni.params[name]
+        for v in ("a%d" % k, "b%d" % k):
+            r.t.objs.pop(r.inst[v], None)
+        del P
+        if k % 40 == 0:
+            gc.collect()
+    traces.append(r.json())
     # interleaved sessions on the shipped sets (one thread): two exchanges on different sets, calls alternating
     for ps in ("PEd25519", "P1024", "P2048", "P3072"):
         uni.paramset(ps)
